@@ -502,15 +502,22 @@ pub fn run_c05(ctx: &mut Ctx) {
 }
 
 pub fn run(ctx: &mut Ctx) {
-    for_ns!([U0, U1, U2, U3, U4, U5, U6, U7, U8, U16, U33], N => {
+    for_ns!([U0, U1, U2, U3, U4, U5, U6, U7, U8, U16, U33, U100], N => {
         let n = N::USIZE;
         ctx.case(&format!("C17;formats;N={n}"), || formats::<N>());
         ctx.case(&format!("C17;serializer-shape;N={n}"), || ser_shape::<N>());
-        for c in 0..=n + 2 {
+        let cs: Vec<usize> = if n <= 33 { (0..=n + 2).collect() } else { vec![0, 1, n / 2, n - 1, n, n + 1, n + 2] };
+        for c in cs {
             for &up in UPS {
                 for later_truthful in [true, false] {
                     let mut fails: Vec<Option<usize>> = vec![None];
-                    fails.extend((0..c).map(Some));
+                    if n <= 33 {
+                        fails.extend((0..c).map(Some));
+                    } else {
+                        fails.extend([0, 1, c / 2, c.saturating_sub(2), c.saturating_sub(1)].into_iter().filter(|&k| k < c).map(Some));
+                        fails.sort();
+                        fails.dedup();
+                    }
                     for fail_at in fails {
                         let plan = Plan { n, c, up, later_truthful, fail_at };
                         // outside the claim (documented exclusion): a source that reports 'nothing left' (Some(0)) while
